@@ -70,8 +70,10 @@ func checkC13(c *Ctx) {
 	c.Clause("the in-flight gauge increment in proxyRequest is paired with a decrement on every exit including the ErrAbortHandler panic exit, each mirrored to the metrics gauge")
 	c.Clause("each proxied request records exactly one per-backend sample, named after the backend that served it, with the same success flag as the global outcome; the flag is status < 500 of the status the wrapper captured")
 	c.Clause("counters are atomic-only / under Metrics.mutex")
+	c.Clause("inside the collector each record call moves exactly its own counter by exactly one: RecordRequest→total, RecordResponse(ok)→successful xor failed, RecordRateLimitedRequest→rate-limited, RecordBackendRequest(name, ok)→that backend's total and its successful xor failed")
 	c.NotDecided("equality with an external tally; EMA arithmetic; behaviour above the 1000-backend cap")
 
+	c.collectorConservation()
 	serve := p.Fn("internal/loadbalancer", "LoadBalancer", "ServeHTTP")
 	exitName := func(t *Trace) string {
 		if t.Exit == ExitPanic {
@@ -302,5 +304,152 @@ func (c *Ctx) statusCaptured() {
 				c.Fail("status-captured", p.FuncKey(fn)+"/overwrites-status", p.InstrPos(st), "the captured status is overwritten outside WriteHeader with "+p.Desc(st.Val, nil))
 			}
 		})
+	}
+}
+
+// collectorConservation: the metrics collector's own record functions move exactly the counter they
+// are named after, by one, on every path (below the documented backend cap).
+func (c *Ctx) collectorConservation() {
+	p := c.P
+	const mT, bT = "metrics.Metrics.", "metrics.BackendMetrics."
+	sp := &Spec{
+		Event: func(in ssa.Instruction, fr *Frame) string {
+			if ci, ok := in.(ssa.CallInstruction); ok {
+				n := CalleeName(ci)
+				if strings.HasPrefix(n, "sync/atomic.Add") && len(ci.Common().Args) == 2 {
+					if fa, isFA := ci.Common().Args[0].(*ssa.FieldAddr); isFA {
+						if f, ok := fieldRefOf(fa); ok {
+							return "add " + f.Key() + " " + p.Desc(ci.Common().Args[1], fr)
+						}
+					}
+					return "add ? " + p.Desc(ci.Common().Args[1], fr)
+				}
+				if strings.HasPrefix(n, "sync/atomic.Store") || strings.HasPrefix(n, "sync/atomic.Swap") || strings.HasPrefix(n, "sync/atomic.CompareAndSwap") {
+					return "atomic-overwrite " + p.Desc(ci.Common().Args[0], fr)
+				}
+			}
+			if k, st := storeKey(in); strings.HasPrefix(k, bT) || strings.HasPrefix(k, mT) {
+				return "store " + k + " := " + p.Desc(st.Val, fr)
+			}
+			if mu, ok := in.(*ssa.MapUpdate); ok {
+				return "map[" + p.Desc(mu.Key, fr) + "] := " + p.Desc(mu.Value, fr)
+			}
+			if lk, ok := in.(*ssa.Lookup); ok && strings.Contains(p.Desc(lk.X, fr), "BackendMetrics") {
+				return "lookup[" + p.Desc(lk.Index, fr) + "]"
+			}
+			return ""
+		},
+		Cond: p.condMentions("param:success", "MaxBackendMetrics", "len(fld:metrics.Metrics.BackendMetrics)", "BackendMetrics["),
+		Expand: func(callee *ssa.Function, site ssa.CallInstruction) bool {
+			// unexported helpers of the collector (look-up-or-install, etc.)
+			pk := fnPkg(callee)
+			return pk != nil && strings.HasSuffix(pk.Pkg.Path(), "/internal/metrics") && !callee.Object().Exported() && callee.Name() != "updateAverageResponseTime"
+		},
+	}
+	counts := func(t *Trace, key string) (plusOne, other int) {
+		for _, it := range t.Items {
+			switch {
+			case it.Label == "add "+key+" k:1":
+				plusOne++
+			case strings.HasPrefix(it.Label, "add "+key+" "):
+				other++
+			case strings.HasPrefix(it.Label, "store "+key+" := "):
+				if it.Label == "store "+key+" := (fld:"+key+" + k:1)" {
+					plusOne++
+				} else {
+					other++
+				}
+			}
+		}
+		return
+	}
+	successPol := func(t *Trace) (bool, bool) {
+		for _, it := range t.Items {
+			if ifi, ok := it.Instr.(*ssa.If); ok && p.Desc(ifi.Cond, it.Frame) == "param:success" {
+				return it.Pol, true
+			}
+		}
+		return false, false
+	}
+	exactly := func(t *Trace, want map[string]int, all []string) string {
+		for _, k := range all {
+			one, other := counts(t, k)
+			if other > 0 {
+				return k + " is changed by something other than +1"
+			}
+			if one != want[k] {
+				return fmt.Sprintf("%s is incremented %d time(s), expected %d", k, one, want[k])
+			}
+		}
+		return ""
+	}
+	global := []string{mT + "TotalRequests", mT + "SuccessfulRequests", mT + "FailedRequests", mT + "RateLimitedRequests"}
+	type spec struct {
+		name string
+		want func(t *Trace) (map[string]int, string)
+		all  []string
+	}
+	specs := []spec{
+		{"RecordRequest", func(*Trace) (map[string]int, string) { return map[string]int{mT + "TotalRequests": 1}, "" }, global},
+		{"RecordRateLimitedRequest", func(*Trace) (map[string]int, string) { return map[string]int{mT + "RateLimitedRequests": 1}, "" }, global},
+		{"RecordResponse", func(t *Trace) (map[string]int, string) {
+			ok, found := successPol(t)
+			if !found {
+				return nil, "the success flag does not decide which counter moves"
+			}
+			if ok {
+				return map[string]int{mT + "SuccessfulRequests": 1}, ""
+			}
+			return map[string]int{mT + "FailedRequests": 1}, ""
+		}, global},
+		{"RecordBackendRequest", func(t *Trace) (map[string]int, string) {
+			if r, _, ok := c.findRel(t, "len(fld:metrics.Metrics.BackendMetrics)", "", 0, -1); ok && r.Lo >= 1 && r.Lo != negInf && !t.Has("store "+bT+"TotalRequests := (fld:"+bT+"TotalRequests + k:1)") {
+				return nil, "skip" // the documented cap edge
+			}
+			ok, found := successPol(t)
+			if !found {
+				return nil, "the success flag does not decide which counter moves"
+			}
+			w := map[string]int{bT + "TotalRequests": 1}
+			if ok {
+				w[bT+"SuccessfulRequests"] = 1
+			} else {
+				w[bT+"FailedRequests"] = 1
+			}
+			return w, ""
+		}, []string{bT + "TotalRequests", bT + "SuccessfulRequests", bT + "FailedRequests"}},
+	}
+	for _, sc := range specs {
+		fn := p.Fn("internal/metrics", "MetricsCollector", sc.name)
+		sc := sc
+		c.traceRule("collector-conservation", "metrics.(*MetricsCollector)."+sc.name, fn, sp,
+			"every path moves exactly the counter(s) this call stands for, by one",
+			func(t *Trace) string {
+				if t.Exit != ExitNormal {
+					return ""
+				}
+				want, problem := sc.want(t)
+				if problem == "skip" {
+					return ""
+				}
+				if problem != "" {
+					return problem
+				}
+				if msg := exactly(t, want, sc.all); msg != "" {
+					return msg
+				}
+				if sc.name == "RecordBackendRequest" {
+					// the entry counted is the one looked up (or installed) under the caller's backend name
+					for _, it := range t.Items {
+						if strings.HasPrefix(it.Label, "lookup[") && it.Label != "lookup[param:backendName]" {
+							return "the per-backend entry is looked up under something other than the caller's backend name: " + it.Label
+						}
+						if strings.HasPrefix(it.Label, "map[") && !strings.HasPrefix(it.Label, "map[param:backendName] := ") {
+							return "a per-backend entry is installed under something other than the caller's backend name: " + it.Label
+						}
+					}
+				}
+				return ""
+			})
 	}
 }
